@@ -31,7 +31,7 @@ RULE = (
     "seeded scenes: scan 5..16 x 5..16 (odd, non-square), detector 7..13, num_bf 5..60, stack family, construction mask "
     "(symmetric disc with crop / ragged mask without crop), sub-mask class (checkerboard, halves, random), rotation, aberration class "
     "(none / defocus / astigmatism / third order, canonical symbols or aliases), all kernel names and aliases, upsampling 1..3, "
-    "low/high-pass; relation in {batch, linear, recombine, closed_zero, closed_aberr, session = one instance called with all 16 accepted mask "
+    "low/high-pass; relation in {batch, linear, recombine, closed_zero, closed_aberr, spelling = one aberration set in 13 equivalent spellings (key order / aliases / constructor vs override), session = one instance called with all 16 accepted mask "
     "containers/dtypes, one numpy and one torch mask buffer refilled in place (A, B, A, M, B) and calls that raise (bad epsilon / kernel / filter / "
     "batch / mask) followed by the original call, each judged against a fresh instance}; non-trivial = stack variance > 0, num_bf >= 5, "
     "non-zero result and (batch) >= 2 distinct batch sizes compared; distinct = (relation, kernel, upsampling, mask class, aberration class)"
@@ -44,12 +44,13 @@ ASSUMPTIONS = [
     "recombination is claimed for the single-pass kernels only (ssb, prlx, icom); obf/mf sub-mask results are observed as a negative control, not judged",
     "closed forms are judged for parallax_flip_phase=False without filters; upsampling U is the zero-interleaved image (Fourier tiling) translated on the fine grid",
     "scan sampling is chosen so that the scan Nyquist frequency is 0.6..2.2 aperture radii (otherwise ssb/obf/mf transfer nothing and the result is identically 0)",
+    "spelling cases: the aberration set is a mapping - key order (angles before or after magnitudes), aliases (defocus = -C10, astigmatism, astigmatism_angle, coma, coma_angle, Cs) and the split between the constructor's aberration_coefs and reconstruct(override_aberration_coefs=...) (all keys, only the angles, only the magnitudes, empty) must reproduce the magnitude-first canonical spelling on a fresh instance (bound 5e-4; probed bitwise equal on the unchanged tree); every other relation also hands its aberration dict over in a random key order",
     "session cases: the 16 mask forms were probed to be accepted and bitwise equivalent on the unchanged tree; the raising calls were probed to raise there too (a call that does not raise is only counted); a caught exception must leave corrected_stack and every later result unchanged",
     "gc.freeze() is called once per worker after import so that the two gc.collect() calls inside reconstruct() cost ~1 ms instead of ~130 ms; it does not change what is computed",
 ]
 BUDGET = {"quick": {"soft_s": 100}, "thorough": {"soft_s": 520}}
 MIN_EVALUATIONS = {"quick": 1500, "thorough": 10000}
-REQUIRED_COUNTERS = ["eval:mask_form_dependence", "eval:mask_buffer_reuse", "eval:after_error_dependence", "eval:batch_invariance", "eval:linearity", "eval:recombination", "eval:closed_form_zero_aberration", "eval:closed_form_defocus_astigmatism"]
+REQUIRED_COUNTERS = ["eval:aberration_spelling_dependence", "eval:mask_form_dependence", "eval:mask_buffer_reuse", "eval:after_error_dependence", "eval:batch_invariance", "eval:linearity", "eval:recombination", "eval:closed_form_zero_aberration", "eval:closed_form_defocus_astigmatism"]
 EXHAUSTIVE = {"quick": False, "thorough": False}
 
 # relative bounds (see ASSUMPTIONS); measured floors over the thorough tier in worst_residuals. The float32 floor grows with
@@ -113,6 +114,15 @@ def plan(tier, seed):
         for r in range(n_sess * w):
             s = common(kernel)
             s.update(rel="session", submask=SUBMASKS[r % len(SUBMASKS)], family=FAMILIES[r % 3])
+            specs.append(s)
+    # equivalent spellings of one aberration set: key order, aliases, split between constructor and override
+    n_spell = {"quick": 24, "thorough": 400}[tier]
+    for kernel in KERNELS:
+        for r in range(n_spell * (3 if kernel == "prlx" else 1)):
+            s = common(kernel)
+            s.update(rel="spelling", aberr=["astig", "third"][r % 2], submask=str(rng.choice(["none", "none"] + SUBMASKS)))
+            if kernel == "prlx" and r % 3 == 0:
+                s.update(aberr="astig", filters="none", closed=True)
             specs.append(s)
     for r in range(reps["closed_zero"]):
         s = common("prlx")
@@ -238,6 +248,11 @@ def _aberrations(rng, cls, lam, ka, alias):
                 given["Cs"] = v
             else:
                 given[k] = v
+    # a dict has no meaningful order: hand the keys over in a random one (angles before magnitudes as often as after)
+    keys = list(given)
+    if rng.random() < 0.7:
+        keys = [keys[t] for t in rng.permutation(len(keys))]
+    given = {k: given[k] for k in keys}
     return canon, given
 
 
@@ -286,7 +301,7 @@ def _scene(rng, spec, ctx):
     sc.rotation = float(rng.uniform(-np.pi, np.pi)) if spec["rot"] else 0.0
     sc.canon, sc.given = _aberrations(rng, spec["aberr"], sc.lam, ka, alias=bool(rng.random() < 0.4))
     sc.mrad_units = bool(rng.random() < 0.3)
-    sc.soft = True if spec["rel"] in ("recombine", "closed_zero", "closed_aberr", "session") else bool(rng.random() < 0.75)
+    sc.soft = True if spec["rel"] in ("recombine", "closed_zero", "closed_aberr", "session", "spelling") else bool(rng.random() < 0.75)
     sc.stack = _stack(rng, spec["family"], sc.nbf, *sc.scan)
     qn = 0.5 / max(sc.ds)
     sc.kw = {}
@@ -300,7 +315,7 @@ def _scene(rng, spec, ctx):
         sc.kw["matched_filter_norm_epsilon"] = float(10 ** rng.uniform(-3, 0))
     if spec["kernel"] == "prlx":
         # sign(sin(chi)) is identically 0 without aberrations: flipping then returns the zero image (trivial)
-        sc.kw["parallax_flip_phase"] = False if (spec["rel"].startswith("closed") or spec["aberr"] == "none") else bool(rng.random() < 0.5)
+        sc.kw["parallax_flip_phase"] = False if (spec["rel"].startswith("closed") or spec.get("closed") or spec["aberr"] == "none") else bool(rng.random() < 0.5)
     sc.kw["deconvolution_kernel"] = spec["name"]
     sc.kw["upsampling_factor"] = spec["up"] if (spec["up"] > 1 or rng.random() < 0.5) else None
     sc.kw["verbose"] = False
@@ -539,6 +554,107 @@ def _run_session(spec, idx, ctx, rng, sc, dp, M, sig, obs):
     ctx.observe(forms=len(MASK_FORMS) + 1, buffer_steps=10, error_calls=names, raised=raised, nA=int(A.sum()), nB=int(B.sum()), **obs)
 
 
+# ------------------------------------------------------------------------------------------------
+# equivalent spellings of the same hyper-parameters: the aberration set is a mapping, so its key order, the use of aliases
+# ('defocus' = -C10, 'astigmatism', 'astigmatism_angle', 'coma', 'coma_angle', 'Cs') and the split between the constructor's
+# aberration_coefs and reconstruct(override_aberration_coefs=...) must not change the reconstruction.
+
+_ALIAS = {"C10": ("defocus", -1.0), "C12": ("astigmatism", 1.0), "phi12": ("astigmatism_angle", 1.0), "C21": ("coma", 1.0), "phi21": ("coma_angle", 1.0), "C30": ("Cs", 1.0)}
+
+
+def _spell(rng, canon, order, alias):
+    keys = list(canon)
+    ang = [k for k in keys if k.startswith("phi")]
+    mag = [k for k in keys if not k.startswith("phi")]
+    if order == "magnitude_first":
+        keys = mag + ang
+    elif order == "angle_first":
+        keys = ang + mag
+    elif order == "reversed":
+        keys = keys[::-1]
+    else:
+        keys = [keys[t] for t in rng.permutation(len(keys))]
+    out = {}
+    for k in keys:
+        if alias and k in _ALIAS and rng.random() < 0.8:
+            name, sign = _ALIAS[k]
+            out[name] = sign * canon[k]
+        else:
+            out[k] = canon[k]
+    return out
+
+
+def _run_spelling(spec, idx, ctx, rng, sc, M, sig, obs):
+    canon = dict(sc.canon)
+    sub = _pick_submask(rng, M, spec["submask"])
+    keep_given = sc.given
+
+    def run(given, override=None, batch=None):
+        sc.given = given
+        try:
+            d = _build(ctx, sc, sc.stack)
+        finally:
+            sc.given = keep_given
+        kw = sc.kw
+        if override is not None:
+            sc.kw = dict(kw, override_aberration_coefs=override)
+        try:
+            st, bf = _recon(d, sc, sub, batch)
+        finally:
+            sc.kw = kw
+        return d, st, bf
+
+    ordered = {k: canon[k] for k in sorted(canon, key=lambda k: (k.startswith("phi"), k))}  # magnitudes first, canonical symbols
+    d0, st0, bf0 = run(ordered)
+    scale = _natural(d0, sc, sub, st0, bf0)[0]
+    if not scale > 0:
+        ctx.count("note:zero_result")
+        ctx.nontrivial(sig, False)
+        return
+    angles = [k for k in canon if k.startswith("phi")]
+    wrong = dict(canon)
+    for k in angles:
+        wrong[k] = canon[k] + float(rng.uniform(0.4, 1.2))
+    variants = []
+    for order in ("angle_first", "reversed", "random"):
+        for alias in (False, True):
+            variants.append(("ctor:%s:%s" % (order, "alias" if alias else "symbols"), _spell(rng, canon, order, alias), None))
+    variants.append(("override_all:angle_first", {}, _spell(rng, canon, "angle_first", False)))
+    variants.append(("override_all:alias_angle_first", {}, _spell(rng, canon, "angle_first", True)))
+    variants.append(("override_all_on_other_state:random", _spell(rng, wrong, "random", False), _spell(rng, canon, "random", bool(rng.random() < 0.5))))
+    variants.append(("override_angles_only", _spell(rng, wrong, "magnitude_first", False), {k: canon[k] for k in angles}))
+    variants.append(("override_angles_only:alias", _spell(rng, wrong, "random", True), {_ALIAS.get(k, (k, 1.0))[0]: canon[k] for k in angles}))
+    variants.append(("override_magnitudes_only", _spell(rng, {k: (v if k.startswith("phi") else 0.5 * v) for k, v in canon.items()}, "angle_first", False), {k: v for k, v in canon.items() if not k.startswith("phi")}))
+    variants.append(("override_empty", _spell(rng, canon, "random", False), {}))
+    n = sc.nbf if sub is None else int(sub.sum())
+    for name, given, override in variants:
+        b = [None, int(rng.integers(1, n + 1))][int(rng.integers(2))]
+        d, st, bf = run(given, override, b)
+        if ctx.check(st.shape == st0.shape, "aberration_spelling_dependence", "%s: corrected_stack shape %s vs %s" % (name, st.shape, st0.shape), **_fields(spec, sc, spelling=name.split(":")[0], outcome="shape")):
+            ctx.close(_m(st - st0) / scale, TOL_SESSION, "aberration_spelling_dependence", lambda: "the same aberration set spelled as %s (aberration_coefs=%r, override_aberration_coefs=%r) reconstructs differently from %r" % (name, given, override, ordered), **_fields(spec, sc, spelling=name.split(":")[0], variant=name, outcome="value"))
+    # wrong angles must matter (otherwise the relation above is vacuous)
+    dw, stw, bfw = run(_spell(rng, wrong, "magnitude_first", False))
+    sens = _m(stw - st0) / scale
+    obs["angle_sensitivity"] = sens
+    # closed form (prlx, no flipping, no filters) for an angle-first spelling
+    if spec.get("closed") and spec["kernel"] == "prlx":
+        used = M if sub is None else sub
+        flat_M = np.flatnonzero(M.ravel())
+        sub_index = np.searchsorted(flat_M, np.flatnonzero(used.ravel()))
+        kx, ky = ref.mask_k(M, sc.dk, sc.rotation)
+        kxi, kyi = kx[used], ky[used]
+        Wt = ref.aperture_weight(used, sc.dk, sc.rotation, sc.lam, sc.semiangle)
+        shifts = ref.geometric_shifts(kxi, kyi, sc.lam, canon.get("C10", 0.0), canon.get("C12", 0.0), canon.get("phi12", 0.0))
+        exp_bf, exp_st = ref.parallax_closed_form(np.asarray(sc.stack, dtype=np.float32), sub_index, kxi, kyi, shifts, sc.ds, spec["up"], Wt)
+        d, st, bf = run({}, _spell(rng, canon, "angle_first", bool(rng.random() < 0.5)))
+        sc2 = max(_m(exp_st), _m(exp_bf))
+        if sc2 > 0 and bf.shape == exp_bf.shape:
+            ctx.close(_m(bf - exp_bf) / sc2, TOL_CLOSED, "closed_form_defocus_astigmatism", "corrected_bf != closed form when the aberrations are given angle-first through override_aberration_coefs", **_fields(spec, sc, spelling="override_all"))
+    var = float(np.asarray(sc.stack, dtype=np.float64).var())
+    ctx.nontrivial(sig, var > 0 and sc.nbf >= 5 and sens > 100 * TOL_SESSION)
+    ctx.observe(variants=len(variants), canon=canon, **obs)
+
+
 def run_case(spec, idx, ctx):
     rng = ctx.rng(idx)
     sc = _scene(rng, spec, ctx)
@@ -552,6 +668,10 @@ def run_case(spec, idx, ctx):
     var = float(stack32.astype(np.float64).var())
     sig = (rel, spec["kernel"], spec["up"], spec.get("submask", "none"), spec["aberr"])
     obs = dict(rel=rel, kernel=spec["name"], num_bf=sc.nbf, scan=sc.scan, det=sc.mask_in.shape, crop=sc.crop, up=spec["up"], aberr=sc.given, rotation=sc.rotation, semiangle=sc.semiangle, soft=sc.soft, filters={k: v for k, v in sc.kw.items() if k.startswith("q_")})
+
+    if rel == "spelling":
+        _run_spelling(spec, idx, ctx, rng, sc, M, sig, obs)
+        return
 
     if rel == "session":
         _run_session(spec, idx, ctx, rng, sc, dp, M, sig, obs)
